@@ -5,6 +5,7 @@
    their position in the batch). *)
 From Coq Require Import Permutation.
 From Verif Require Import Lib.Bytes C08.Model C08.Spec C08.PSga C08.PMeta C08.Proofs C08.Run C08.PLink.
+From Verif Require C08.TagModel C08.TagOrder C12.SpecLink.
 From VerifGen Require Import Consts.
 Open Scope Z_scope.
 
@@ -170,6 +171,47 @@ Proof.
   vm_compute. repeat split; reflexivity.
 Qed.
 Print Assumptions dropped_iff_too_old_pinned_refuted.
+
+(* ---------- tag order: "every node routes a given series to the same shard regardless of tag
+   order in the input".  [written] = what a client means (measurement, tag set with distinct
+   keys, time) and how it wrote it (tags in some order, anything after the key); w_point = the
+   point the write path routes: key = what the parser model (C12's scan_key = models/points.go
+   scanKey) returns for the line, time from the line.  For every two batches that differ only
+   in the order the tags were written (and in what follows the key), MapShards gets the same
+   points and therefore returns the same metadata and the same ShardMapping. ---------- *)
+Theorem route_tag_order_independent :
+  forall now rp m (a b : list TagOrder.written),
+  Forall TagOrder.w_ok a -> Forall TagOrder.w_ok b -> Forall2 TagOrder.same_series a b ->
+  TagOrder.route_written now rp m a = TagOrder.route_written now rp m b /\
+  TagOrder.route_written now rp m a <> None.
+Proof. exact TagOrder.route_written_order_independent. Qed.
+Print Assumptions route_tag_order_independent.
+
+(* the key the parser hands to the router is the canonical one: escaped measurement, tags
+   sorted by escaped key - whatever order they were written in *)
+Theorem routed_key_is_canonical :
+  forall w, TagOrder.w_ok w ->
+  TagOrder.w_point w = Some (mkP (TagModel.canonical_key (TagOrder.w_meas w) (TagOrder.w_tags w)) (TagOrder.w_time w)).
+Proof. exact TagOrder.w_point_canonical. Qed.
+Print Assumptions routed_key_is_canonical.
+
+(* link: for every well-formed series and every order, the model's key passes the
+   executable key spec of Run.v (CKey cases) *)
+Theorem model_key_meets_executable_spec :
+  forall m ts order,
+  C12.SpecLink.akey_ok m ts = true -> NoDup (map fst ts) -> Permutation ts (TagModel.permute ts order) ->
+  let text := (TagModel.key_text8 m (TagModel.permute ts order) ++ 32%N :: TagModel.line_tail) in
+  TagModel.key_obs_spec m ts (order, text, TagModel.parse_key text) = true.
+Proof. exact TagOrder.model_key_meets_spec. Qed.
+Print Assumptions model_key_meets_executable_spec.
+
+Example tag_order_hypotheses_satisfiable :
+  let ts := [([104;111;115;116], [97]); ([104;111;115;116;45;49], [98;32;99])]%N in
+  let w1 := TagOrder.mkW [99;112;117]%N ts ts [118]%N 5 in
+  let w2 := TagOrder.mkW [99;112;117]%N ts (rev ts) [120]%N 5 in
+  TagOrder.w_ok w1 /\ TagOrder.w_ok w2 /\ TagOrder.same_series w1 w2 /\ TagOrder.w_line w1 <> TagOrder.w_line w2 /\
+  TagOrder.w_point w1 = TagOrder.w_point w2 /\ TagOrder.w_point w1 <> None.
+Proof. exact TagOrder.tag_order_nonvacuous. Qed.
 
 (* ---------- non-vacuity: the hypotheses are satisfiable by non-trivial values, and the
               repaired model routes the witnesses as specified ---------- *)
